@@ -113,9 +113,10 @@ def semRef (start : Bytes) (v : Visit Attr) (p : Prim) (s : ES) : Bool × ES :=
     let (arg, cwd) := if dir then dirArgRef start v.ent.rpath else (path, none)
     let r := s.gs.spawn cmdOk (cmd :: tmpl.map (replaceAll arg)) cwd
     (r.1 == some 0, { s with gs := r.2 })
-  | .execMulti _ dir _ _ _ =>
+  | .execMulti id dir _ _ _ =>
+    -- the reference notes which `+` action the path is to be handed to, and in which directory
     let (arg, cwd) := if dir then dirArgRef start v.ent.rpath else (path, none)
-    (true, { s with gs := { s.gs with execs := s.gs.execs ++ [⟨[arg], cwd⟩] } })
+    (true, { s with gs := { s.gs with execs := s.gs.execs ++ [⟨[(toString id).toUTF8.toList, arg], cwd⟩] } })
   | .typeIs c => ((match recordSpecR v with | some (t, _) => t == c | none => false), s)
   | .xtype c =>
     -- the opposite choice: the link itself where the view follows, through the link where it does not
